@@ -63,6 +63,9 @@ def laplacian_filter_3d(K, filter_type, order, field_type):
               field_buffer=field_buf, field_type=field_type, filter_type=filter_type)
     vec = field_type == "vector"
     f = K.field("vector_field" if vec else "scalar_field", ((3,) if vec else ()) + shape)
+    # arbitrary prior contents of the captured work buffers AT THE CALL (not only at generator time)
+    K.havoc(flux_buf)
+    K.havoc(field_buf)
     if vec:
         K.run(k, vector_field=f)
     else:
@@ -95,6 +98,7 @@ def vorticity_stretching_timestep_ssprk3_3d(K):
     w, u, flux = (K.field(n, (3,) + shape) for n in
                   ("vorticity_field", "velocity_field", "vorticity_stretching_flux_field"))
     p = K.real("dt_by_2_dx")
+    K.havoc(mid)
     K.run(k, vorticity_field=w, velocity_field=u, vorticity_stretching_flux_field=flux, dt_by_2_dx=p)
     K.unchanged("frame_velocity", u, props=("C13",))
     c = K.cell(shape)
@@ -149,6 +153,8 @@ def laplacian_filter_fourier_symbol(K, filter_type, order):
     k = K.gen("gen_laplacian_filter_kernel_3d", filter_order=order, filter_flux_buffer=flux_buf,
               field_buffer=field_buf, field_type="scalar", filter_type=filter_type)
     f = K.field("scalar_field", shape)
+    K.havoc(flux_buf)
+    K.havoc(field_buf)
     K.run(k, scalar_field=f)
     c = K.cell(shape, name="i", margin=order + 1)
     val = K.value(f, c)
